@@ -575,6 +575,10 @@ fn error_unit(rng: &mut Rng) -> Unit {
         "if rc 0; then echo x; done",
         "echo x; ;; echo y",
         "( echo x",
+        // the offending token is the newline itself
+        "echo x >",
+        ": 2>&",
+        "echo x <<",
     ]);
     Unit {
         // an unterminated quotation or parenthesis makes the parser read on to
@@ -704,7 +708,18 @@ pub fn generate(rng: &mut Rng, tier: Tier) -> Case {
             // line (not after an error that swallows the rest of the input or
             // leaves an option behind that changes the syntax)
             // (`for in do` is the start of a loop over a variable called `in`)
-            const ONE_LINE: [&str; 7] = ["fi", "done", ")", "}", "echo x | | echo y", "if rc 0; then echo x; done", "echo x; ;; echo y"];
+            const ONE_LINE: [&str; 10] = [
+                "fi",
+                "done",
+                ")",
+                "}",
+                "echo x | | echo y",
+                "if rc 0; then echo x; done",
+                "echo x; ;; echo y",
+                "echo x >",
+                ": 2>&",
+                "echo x <<",
+            ];
             error_interactive = g.rng.below(5) == 0 && eu.lines.len() == 1 && ONE_LINE.contains(&eu.lines[0].as_str());
             units.push(eu);
             if !error_interactive {
